@@ -154,6 +154,37 @@ CLAIMED = {
    note="Partial: scenario level is fault enumeration (single faults, exhaustive in k), not proof; faults are injected by -Wl,--wrap in the "
         "harness and by an LD_PRELOAD shim for the tools; errno-specific behaviour beyond EINTR is not distinguished.",
    technique="Lean 4 proof (case analysis over fault outcomes, write-append lemma, induction over the read loop) + exhaustive single-fault injection as search and correspondence"),
+ 'C05': dict(
+   text="PARTIAL proof (Lean 4) about the model of dl.c/multipart.c (dl_write, set_chunk_valid, zero_chunk, dl_write_range, "
+        "multipart_extract, multipart_get_boundary, gen_regex, zck_write_chunk_cb, zck_header_cb), for an ARBITRARY hash function, ARBITRARY "
+        "regcomp/regexec answers, ARBITRARY header lines, body bytes and fragmentation, transport stopping or not at a refusal, application "
+        "clearing errors or not: (confined) no target byte outside the extents of requested, not yet valid chunks changes and valid chunks "
+        "stay valid; (verified) a chunk that becomes valid holds at its extent bytes that hash to its index checksum (for every header the "
+        "parser model accepts: extents proved disjoint); (mismatch) verification succeeds iff the hashed bytes have the index checksum, "
+        "otherwise the extent is zero-filled, the chunk marked failed and dl_write_range / the callback return 0.  Fragmentation "
+        "independence and completeness for well-formed responses are NOT theorems: they are evaluated on the implementation over "
+        "families of fragmentations of the same response (all 1-cut, all 2-cut in thorough, 1..7-byte pieces, sampled k-cuts), against "
+        "a reference server, with the model run on the same inputs.",
+   design_ref="DESIGN.md section 7 C05",
+   note="Partial: frag_indep / wellformed_complete are checked, not proved. Trusted: Lean kernel (axioms propext, Classical.choice, "
+        "Quot.sound); hand-written model tied to the C by correspondence on explored inputs only; glibc regex enters as a logged oracle.",
+   technique="Lean 4 proof (invariant over the six write-path fields preserved by three primitive steps, lifted generically through "
+             "dl_write_range / multipart loop / callbacks by induction over fuel and fragment list; list-slice algebra for writes at "
+             "offsets) + differential correspondence with exhaustive small fragmentations"),
+ 'C17': dict(
+   text="PARTIAL proof (Lean 4), for ARBITRARY header lines, body bytes, fragmentations (empty fragments too), stop/continue/clear-error "
+        "schedules, regcomp outcomes on the boundary-derived patterns, and any regexec that keeps its contract (offsets inside the "
+        "subject): (safe) no callback of the model uses an allocated-but-uncompiled pattern, reads a match outside its string, follows "
+        "a chunk pointer outside the index or runs out of the fuel bounding its loops (termination); the C string handed to regexec "
+        "ends inside the buffer (NUL at j+3 with j+4 < end); plus C05's confinement and verification theorems, which already quantify "
+        "over arbitrary input.  Heap lifetime, leaks and glibc's regex internals are outside the model: searched with ASan/UBSan and a "
+        "pattern-lifetime tracker interposed on regcomp/regexec/regfree over malformed headers, boundaries and bodies.",
+   design_ref="DESIGN.md section 7 C17",
+   note="Partial by nature of the technique: memory safety of C is expressible in the model only as explicit ub steps (pattern state, "
+        "match offsets, chunk index, fuel) and list-index bounds; the rest is sanitizer search. Hypothesis of `safe`: the constant header "
+        "pattern compiles.",
+   technique="Lean 4 proof (safety invariant over pattern states + ub flag, fuel-sufficiency by a decreasing measure for dl_write_range "
+             "and the multipart loop, induction over fragments) + ASan/UBSan differential runs on malformed responses as search"),
  'C19': dict(
    text="PARTIAL proof (Lean 4): (1) footprint_clean, on the list of process-wide writable objects REGENERATED on every run from the library "
         "objects of the working tree (objdump -t, OpenSSL and bundled hash back ends): each is logging configuration (log_level, log_fd, "
